@@ -318,7 +318,9 @@ func (g *qgen) clause(first bool, o qopts) QClause {
 	}
 	// predicate
 	p := V.Preds[t[1]]
-	temporal := p.Type() == 1
+	// (the partially defined forms "id"@[?t] and "id"@[lo,hi] are not generated for the empty identifier: the constructors
+	// refuse it and the statement layer may reject more than the grammar)
+	temporal := p.Type() == 1 && p.ID() != ""
 	switch x := r.Intn(10); {
 	case x < 4:
 		c.P = Tm{K: "p", I: t[1]}
@@ -569,6 +571,35 @@ func genSelect(r *Rand, u []TSpec, names []string, o sopts) *Stmt {
 			// one more aggregate over some binding
 			b := bs[r.Intn(len(bs))]
 			q.Proj = append(q.Proj, Proj{B: b, As: alias(), Agg: []string{"count", "countd", "sum"}[r.Intn(3)]})
+		}
+	}
+	if r.Chance(0.15) {
+		// an alias may re-use the name of a pattern binding (shadowing): the output column ?x then is not the
+		// pattern binding ?x, which may itself be aggregated or projected under another name
+		taken := map[string]bool{}
+		for _, p := range q.Proj {
+			taken[out(p)] = true
+		}
+		var free []string
+		for _, b := range bs {
+			if !taken[b] {
+				free = append(free, b)
+			}
+		}
+		var aliased []int
+		for i, p := range q.Proj {
+			if p.As != "" {
+				aliased = append(aliased, i)
+			}
+		}
+		if len(free) > 0 && len(aliased) > 0 {
+			i, nb := aliased[r.Intn(len(aliased))], free[r.Intn(len(free))]
+			for k, gname := range q.GroupBy {
+				if gname == q.Proj[i].As {
+					q.GroupBy[k] = nb
+				}
+			}
+			q.Proj[i].As = nb
 		}
 	}
 	if r.Chance(o.order) {
